@@ -2,6 +2,7 @@ import Mrpro.Lemmas.SrcL
 import Mrpro.Model.Resample
 import Mrpro.Lemmas.ResampleL
 import Mrpro.Lemmas.PadCoordL
+import Mrpro.Lemmas.FractionL
 /-! # C20 — resampling operators interpolate and integrate as specified -/
 namespace C20
 open M
@@ -89,5 +90,31 @@ theorem reflectCoord_laws {tl th : ℤ} (h : tl < th) (c : ℚ) :
     ∧ M.reflectCoord tl th (c + ((th : ℚ) - (tl : ℚ))) = M.reflectCoord tl th c
     ∧ ((tl : ℚ) / 2 ≤ M.reflectCoord tl th c ∧ M.reflectCoord tl th c ≤ (th : ℚ) / 2) :=
   ⟨M.reflectCoord_mirror tl th c, M.reflectCoord_mirror_high h c, M.reflectCoord_periodic h c, M.reflectCoord_range h c⟩
+
+/-! ### the fraction of a slice pixel's support inside the volume (`fraction_in_view`) — zero padding -/
+
+/-- **zero padding**: with the fraction in view (and ε = 0) the value of a slice pixel is the weighted sum over the voxels inside the
+volume divided by the sum of ALL weights of its candidate points -/
+theorem pixelValue_zero_padding (w : List Rat) (mask : List Bool) (v : List Rat)
+    (hin : M.sumR (M.inView w mask) ≠ 0) (hall : M.sumR w ≠ 0) :
+    M.pixelValue (M.fractionInView w mask) 0 w mask v
+      = M.sumR (((M.inView w mask).zip v).map (fun p => p.1 * p.2)) / M.sumR w := M.pixelValue_zero_padding w mask v hin hall
+
+/-- inside the volume the fraction is 1; for non-negative weights it lies in [0, 1] -/
+theorem fractionInView_inside (w : List Rat) (mask : List Bool) (hlen : w.length = mask.length) (hall : ∀ b ∈ mask, b = true)
+    (hs : M.sumR w ≠ 0) : M.fractionInView w mask = 1 := M.fractionInView_all_in w mask hlen hall hs
+theorem fractionInView_range (w : List Rat) (mask : List Bool) (hw : ∀ x ∈ w, 0 ≤ x) (hs : 0 < M.sumR w) :
+    0 ≤ M.fractionInView w mask ∧ M.fractionInView w mask ≤ 1 := M.fractionInView_range w mask hw hs
+
+/-- **robust against rounding**: a further candidate outside the volume with weight δ only adds δ to the denominator -/
+theorem fractionInView_extra_outside (w : List Rat) (mask : List Bool) (hlen : w.length = mask.length) (δ : Rat) :
+    M.fractionInView (w ++ [δ]) (mask ++ [false]) = M.sumR (M.inView w mask) / (M.sumR w + δ) :=
+  M.fractionInView_extra_outside w mask hlen δ
+
+/-- witness of the repaired defect: the fraction as shipped counted candidate points - one outside the volume with a rounding-size
+weight halved the row -/
+theorem fractionInViewShipped_witness :
+    M.fractionInViewShipped [1, 1 / 10000000] [true, false] = 1 / 2
+      ∧ M.fractionInView [1, 1 / 10000000] [true, false] = 10000000 / 10000001 := M.fractionInViewShipped_witness
 
 end C20
